@@ -34,6 +34,8 @@ def generate(rng, tier):
             x = rng.random()
             sup = None if x < 0.2 else (["seg", gen.rand_segment(rng, regime, span=14, maxlen=10)] if x < 0.6
                                         else ["tl", gen.rand_timeline(rng, regime, maxn=3, span=14)])
+            if rng.random() < 0.06:
+                sup = rng.choice([["tl", []], ["seg", [5, 5]]])      # falsy supports: must not be taken for "no support"
             cases.append({"regime": regime, "a": a, "b": b, "collar": collar, "sup": sup})
     return {"cases": cases, "meta": {"exhaustive": False,
                                      "sizes": gen.stats(cases, {"n_a": lambda c: len(c["a"]), "n_b": lambda c: len(c["b"]),
